@@ -381,6 +381,14 @@ class OrderingList(List[_T]):
         self._reorder()
         return entity
 
+    def reverse(self) -> None:
+        super().reverse()
+        self._reorder()
+
+    def sort(self, *, key: Any = None, reverse: bool = False) -> None:
+        super().sort(key=key, reverse=reverse)
+        self._reorder()
+
     @overload
     def __setitem__(self, index: SupportsIndex, entity: _T) -> None: ...
 
